@@ -158,3 +158,7 @@ impl Default for State {
 
 #[cfg(test)]
 mod tests;
+
+#[cfg(all(aws_s2n_quic_verif, any(test, kani)))]
+#[path = "/verif/harness/dc/receiver.rs"]
+mod verif;
